@@ -21,7 +21,7 @@ type c10WriterSpec struct {
 }
 
 func c10WriterRules(r *fw.Run, p *fw.Program) {
-	ru := r.Rule("C10.writer", "hexpairwriter and asciiwriter (siblings): New binds width/startLineOffset/fn to the fields Write uses as modulus / pad bound / cell function, offset starts at 0 and is only ever incremented by 1 (once per pad cell, once per byte); every modulus is offset % width; pad loop runs while offset < startLineOffset; a newline is emitted only after the cell in column width-1 (and only if more bytes follow in the chunk) or, deferred, before column 0 when offset > startLineOffset; pad cells have the width of data cells; cells are fn(p[i])", 28)
+	ru := r.Rule("C10.writer", "hexpairwriter and asciiwriter (siblings): New binds width/startLineOffset/fn to the fields Write uses as modulus / pad bound / cell function, offset starts at 0 and is only ever incremented by 1 (once per pad cell, once per byte); every modulus is offset % width; pad loop runs while offset < startLineOffset; a newline is emitted only after the cell in column width-1 (and only if more bytes follow in the chunk) or, deferred, before column 0 when offset > startLineOffset; pad cells have the width of data cells; cells are fn(p[i]); the cell text is appended at buf[bufOffset:] with bufOffset advanced by its length, bufOffset is reset after every flush and set to 1 after a deferred separator at buf[0], and advanced by 1 after a byte stored at buf[bufOffset]", 38)
 	for _, sp := range []c10WriterSpec{{"hex", "internal/hexpairwriter", 3}, {"ascii", "internal/asciiwriter", 1}} {
 		c10WriterCheck(ru, p, sp)
 	}
@@ -159,6 +159,7 @@ func c10WriterCheck(ru *fw.Rule, p *fw.Program, sp c10WriterSpec) {
 	}
 	lenP := fw.PAtom("len(" + wr.Params[1].Name() + ")")
 	iP := env.Of(idx)
+	c10WriterBuf(ru, p, k, wr, rcv, env, cell, recvField, fname)
 
 	// --- newline sites
 	type site struct {
@@ -216,7 +217,7 @@ func c10WriterCheck(ru *fw.Rule, p *fw.Program, sp c10WriterSpec) {
 			inByteLoop := cell.Block().Dominates(b) && c10InLoop(b)
 			if inByteLoop {
 				nALoop++
-				ru.Check(c10Exact(env, b, moreInChunk), key, pos(s.ins), s.what+" after the cell in column width-1, only when more bytes follow in this chunk",
+				ru.Check(c10ExactInRange(env, b, moreInChunk), key, pos(s.ins), s.what+" after the cell in column width-1, only when more bytes follow in this chunk",
 					s.what+" after the last column is not restricted to i < len(p)-1: the deferred newline of the next Write doubles it; known: "+c10FactsString(env, b))
 			} else {
 				ru.Check(c10Exact(env, b, padding), key, pos(s.ins), s.what+" after the pad cell in column width-1", s.what+" in column width-1 outside the pad loop (offset < startLineOffset) and outside the byte loop; known: "+c10FactsString(env, b))
